@@ -266,9 +266,15 @@ func (s *sdsSUT) apply(f []string) string {
 		s.start(wire.Dec(f[1]))
 		return "ok"
 	case "clear":
-		s.cache.ClearAll()
+		if s.gen != nil {
+			s.cache.ClearAll()
+		}
 		return "ok"
 	case "gen":
+		if s.gen == nil {
+			// no `start` yet (only in shrunk cases): no controllers, nothing can be released
+			return "none keys=-"
+		}
 		res, info := s.generate(s.gen, decGen(f))
 		if res == nil && info == "" {
 			return "none keys=" + s.cacheKeys()
@@ -537,6 +543,9 @@ func refDenotes(ref string, o origin, caOK bool) bool {
 }
 
 func (s *sdsSUT) oracleGen(f []string) string {
+	if s.gen == nil {
+		return ""
+	}
 	g := decGen(f)
 	res, _ := s.generate(s.gen, g)
 	vs := views(res)
